@@ -1,5 +1,93 @@
-(* C10 - stub, theorems follow *)
-From RP Require Import Lib.Base Lib.Varint Model.Net Model.Client Spec.NetSpec Proofs.NetProofs.
-Theorem stub_probe_bytes : probe_bytes = [2; 0; 0; 0; 8; 1].
-Proof. exact probe_bytes_eq. Qed.
-Print Assumptions stub_probe_bytes.
+(* C10 - Malformed or stalled panel streams are contained.
+   Model: Model/Client.v bin_loop as repaired by /repo commit 30d366e (finding F14: the 2 s
+   deadline is armed once the first header byte has arrived), environment Model/Net.v.
+   Spec: Spec.NetSpec.next_frame / walk_bin (reference reading with the three fault kinds),
+   which is also the oracle evaluated on the implementation's trace (Run/C10.v).
+   The lifecycle consequences (non-cancelled disconnect, reconnect after the retry period) are
+   theorems of C11 (Props/C11.v: c11_reconnects_after_loss); "never panics" is by construction
+   of the model (no partial operation occurs in the loop) and is observed by the tie.
+   PARTIAL (DESIGN section 5): runtime, kernel, timers exercised by the tie, not modelled. *)
+From RP Require Import Lib.Base Lib.Varint Lib.Strings Model.Net Model.Client Spec.NetSpec
+     Proofs.NetProofs Proofs.NetFrameProofs.
+
+(* Never reserves memory of attacker-chosen size: for EVERY connection state, stream and
+   header value (all 2^32 of them and beyond), every allocation is below 500000. *)
+Theorem c10_alloc_bounded : forall (M : Type) (unmarshal : bytes -> M) fuel c,
+  Forall (fun n => n < 500000) (allocs M (fst (bin_loop M unmarshal fuel c))).
+Proof. exact alloc_bounded_any. Qed.
+Print Assumptions c10_alloc_bounded.
+
+(* A fault of any of the three kinds at ANY position of an otherwise valid stream (after any
+   number of good frames, whatever follows it): every good frame before it is delivered,
+   nothing of the broken frame or of the bytes after it, and the connection is dropped at the
+   instant the reference reading names - t = header completion for a length >= 500000 (k = 2),
+   first header byte + 2 s for a stall inside the header (k = 1), header + 2 s for a stall
+   inside the payload (k = 3). *)
+Theorem c10_fault_contained : forall (M : Type) (unmarshal : bytes -> M) ps good bad nw fuel t k,
+  Forall (fun p => zlen p < limit) ps ->
+  map snd good = concat (map frame ps) -> frames_timely good ps = true ->
+  next_frame bad = FFault t k ->
+  tb_sorted nw (good ++ bad) = true ->
+  (length (good ++ bad) < fuel)%nat -> (length ps < fuel)%nat ->
+  map snd (deliveries M (fst (bin_loop M unmarshal fuel (C nw (good ++ bad) None)))) = map unmarshal ps /\
+  snd (bin_loop M unmarshal fuel (C nw (good ++ bad) None)) = (if k =? 2 then Dropped t RLimit else Dropped t RTimeout).
+Proof. exact fault_contained. Qed.
+Print Assumptions c10_fault_contained.
+
+(* the fault kinds, for all header values and all timings *)
+Theorem c10_over_limit_is_fault : forall t1 b1 h' rest,
+  let h := (t1, b1) :: h' in
+  zlen h = 4 -> limit <= u32le (map snd h) -> tmax h t1 < t1 + inframe ->
+  next_frame (h ++ rest) = FFault (tmax h t1) 2.
+Proof. exact over_limit_shape. Qed.
+Print Assumptions c10_over_limit_is_fault.
+
+Theorem c10_header_stall_is_fault_short : forall t1 b1 r, zlen ((t1, b1) :: r) < 4 ->
+  next_frame ((t1, b1) :: r) = FFault (t1 + inframe) 1.
+Proof. exact header_stall_short. Qed.
+Print Assumptions c10_header_stall_is_fault_short.
+
+Theorem c10_header_stall_is_fault_late : forall t1 b1 h' rest,
+  let h := (t1, b1) :: h' in
+  zlen h = 4 -> t1 + inframe <= tmax h t1 -> next_frame (h ++ rest) = FFault (t1 + inframe) 1.
+Proof. exact header_stall_late. Qed.
+Print Assumptions c10_header_stall_is_fault_late.
+
+Theorem c10_payload_stall_is_fault : forall t1 b1 h' rest,
+  let h := (t1, b1) :: h' in
+  let v := u32le (map snd h) in
+  zlen h = 4 -> v < limit -> tmax h t1 < t1 + inframe ->
+  (zlen rest < v \/ exists pl r', rest = pl ++ r' /\ zlen pl = v /\ 0 < v /\ tmax h t1 + inframe <= tmax pl (tmax h t1)) ->
+  next_frame (h ++ rest) = FFault (tmax h t1 + inframe) 3.
+Proof. exact payload_stall_shape. Qed.
+Print Assumptions c10_payload_stall_is_fault.
+
+(* A frame of correct length whose payload is empty or not a valid protobuf never
+   desynchronises the stream: [unmarshal] is an arbitrary function the framing cannot inspect,
+   and the payloads [ps] are arbitrary byte strings - every following frame is delivered. *)
+Theorem c10_junk_payload_keeps_sync : forall (M : Type) (unmarshal : bytes -> M) ps tb nw fuel,
+  Forall (fun p => zlen p < limit) ps ->
+  map snd tb = concat (map frame ps) ->
+  tb_sorted nw tb = true -> frames_timely tb ps = true ->
+  (length tb < fuel)%nat -> (length ps < fuel)%nat ->
+  map snd (deliveries M (fst (bin_loop M unmarshal fuel (C nw tb None)))) = map unmarshal ps /\
+  snd (bin_loop M unmarshal fuel (C nw tb None)) = Waiting.
+Proof. exact bin_framing. Qed.
+Print Assumptions c10_junk_payload_keeps_sync.
+
+(* boundaries: 499999 accepted (then the missing payload stalls), 500000 / 2^31 / 2^32-1 refused
+   at once; a stall after 2 of 4 header bytes (finding F14) drops at first byte + 2 s and the
+   rest of the frame, arriving later, is not delivered *)
+Example c10_ex_boundaries :
+  next_frame [(5, 31); (5, 161); (5, 7); (5, 0)] = FFault 2005 3 /\
+  next_frame [(5, 32); (5, 161); (5, 7); (5, 0); (6, 1)] = FFault 5 2 /\
+  next_frame [(5, 0); (5, 0); (5, 0); (5, 128)] = FFault 5 2 /\
+  next_frame [(5, 255); (5, 255); (5, 255); (5, 255)] = FFault 5 2.
+Proof. repeat split; reflexivity. Qed.
+Example c10_ex_f14 :
+  bin_loop bytes (fun p => p) 20 (C 0 [(10, 1); (10, 0); (4000, 0); (4000, 0); (4000, 9)] None) = ([], Dropped 2010 RTimeout).
+Proof. reflexivity. Qed.
+Example c10_ex_junk :
+  map snd (deliveries bytes (fst (bin_loop bytes (fun p => p) 20 (C 0 [(1, 0); (1, 0); (1, 0); (1, 0); (2, 2); (2, 0); (2, 0); (2, 0); (2, 255); (2, 255); (3, 1); (3, 0); (3, 0); (3, 0); (3, 8)] None))))
+  = [[]; [255; 255]; [8]].
+Proof. reflexivity. Qed.
